@@ -19,11 +19,14 @@ def jRes (r : Except Err (Contract PTerm)) : Json :=
 /-- primitives for one resolution of all ties / gray verdicts; tactic-5 hints are looked up by content.
     The variable list of the elimination is not known here, so admissibility of a hint is checked inside with the
     variables the hint was recorded with. -/
-def prims (hs : List OpsElim.Hint) (hxs : List Var) (b : Bool) : Prims PTerm :=
-  PolyAlg.polyPrims theOracle (fun _ => b) b (PolyAlg.realTac theOracle b (OpsElim.hintFn hs hxs))
+def primsO (O : Oracle) (hs : List OpsElim.Hint) (hxs : List Var) (b : Bool) : Prims PTerm :=
+  PolyAlg.polyPrims O (fun _ => b) b (PolyAlg.realTac O b (OpsElim.hintFn hs hxs))
+
+def prims (hs : List OpsElim.Hint) (hxs : List Var) (b : Bool) : Prims PTerm := primsO theOracle hs hxs b
 
 def both (f : Prims PTerm → Except Err (Contract PTerm)) (hs : List OpsElim.Hint) (hxs : List Var) : Json :=
-  (jRes (f (prims hs hxs true))).setObjVal! "alt" (jRes (f (prims hs hxs false)))
+  ((jRes (f (prims hs hxs true))).setObjVal! "alt" (jRes (f (prims hs hxs false)))).setObjVal! "near"
+    (Json.arr #[jRes (f (primsO (oracleShift (-nearD)) hs hxs true)), jRes (f (primsO (oracleShift nearD) hs hxs false))])
 
 def handleAlg (op : String) (j : Json) : Option (Except String Json) :=
   let run (f : Except String Json) : Option (Except String Json) := some f
